@@ -76,6 +76,10 @@ MUST_RETURN = {"node_copy", "deepcopy", "shallow_copy", "clone_tree", "get_subtr
 FALSY_UNSAFE = {"clone_tree", "get_subtree", "prune_tree", "print_tree", "yield_tree", "hprint_tree", "hyield_tree", "show",
                 "hshow", "tree_to_mermaid", "copy_nodes_from_tree_to_tree", "copy_and_replace_nodes_from_tree_to_tree",
                 "copy_nodes"}
+# value-semantics subclasses (__eq__/__hash__ by name) are generated only for one-tree functions and only with names
+# that are distinct over the whole tree: two trees / copies inside one tree contain distinct nodes that compare equal
+EQ_UNSAFE = {"get_tree_diff_first", "get_tree_diff_second", "copy_nodes_from_tree_to_tree",
+             "copy_and_replace_nodes_from_tree_to_tree", "copy_nodes"}
 NODE_ONLY = {"show", "hshow", "tree_to_newick", "tree_to_mermaid", "tree_to_dot", "find_relative_path",
              "find_relative_paths", "get_tree_diff_first", "get_tree_diff_second",
              "copy_nodes_from_tree_to_tree", "copy_and_replace_nodes_from_tree_to_tree", "copy_nodes"}
@@ -1504,6 +1508,22 @@ def gen_case(rng, fn=None, cls=None, nmax=9):
     cls = cls or rng.choice(["Node", "Node", "BinaryNode"])
     spec, shape, pool = gen_tree(rng, cls, nmax=nmax)
     n = len(spec)
+    sub_kind = False
+    if cls == "Node":
+        r = rng.random()
+        if r < 0.12:
+            sub_kind = True
+        elif r < 0.20 and fn not in EQ_UNSAFE:
+            # value semantics: only with names that are pairwise distinct over the WHOLE tree, so that == on
+            # nodes of one tree coincides with identity (sets / dict keys / list.index / `in` on nodes)
+            sub_kind = "eq"
+            seen = set()
+            for i, sp in enumerate(spec):
+                if sp[1] in seen:
+                    sp[1] = f"{sp[1]}_{i}"
+                seen.add(sp[1])
+        elif r < 0.28 and fn not in FALSY_UNSAFE:
+            sub_kind = "falsy"
     sep = rng.choice(SEPS) if cls == "Node" and rng.random() < 0.4 else "/"
     paths = _paths(spec, sep)
     start = 0 if rng.random() < 0.45 else rng.randrange(n)
@@ -1764,14 +1784,8 @@ def gen_case(rng, fn=None, cls=None, nmax=9):
         o["sep"] = sep
         if case.get("expect_ok") and any(not _unambiguous(paths, range(n), j) for j in fr):
             o["with_full_path"] = True       # from-paths are looked up by suffix unless this is set
-    if cls == "Node":
-        r = rng.random()
-        if r < 0.12:
-            case["sub_cls"] = True
-        elif r < 0.20:
-            case["sub_cls"] = "eq"
-        elif r < 0.28 and fn not in FALSY_UNSAFE:
-            case["sub_cls"] = "falsy"
+    if sub_kind:
+        case["sub_cls"] = sub_kind
     if fn in MUST_RETURN:
         case["expect_ok"] = True
     return case
@@ -1987,7 +2001,11 @@ def partial_clauses(prop):
         "(g) one mutation batch per side, no second call on the same tree; (h) user subclasses whose leaves are falsy "
         "(__len__ = number of children) are not generated for clone_tree, get_subtree, prune_tree, the print / yield family, "
         "tree_to_mermaid and the copy_nodes* functions: the unchanged library tests nodes for truth there (`if _child:`, "
-        "`if not tree:`) and drops leaves or raises 'not found' (reported to the coordinator as a possible finding)",
+        "`if not tree:`) and drops leaves or raises 'not found' (reported to the coordinator as a possible finding); "
+        "(i) user subclasses with value semantics (__eq__/__hash__ by name) are generated only for one-tree functions and "
+        "with names pairwise distinct over the whole tree (DESIGN section 8): with a child named like an ancestor the "
+        "unchanged prune_tree keeps a child it should cut, because it tests membership in SETS of nodes - witness: "
+        "EqNode tree a -> (a, c13), prune_tree(root, ['/a/c13']) returns both children",
     ]
 
 
